@@ -486,4 +486,362 @@ Section Facts.
     eapply sound_unique; [apply (I_sound _ I) | apply seq_eval_sound; eauto | eauto | eauto].
   Qed.
 
+  (* ------------------------------------------------------------------ exactly once *)
+  Definition quiet (e : ev V) : bool :=
+    match e with ERaise _ _ | EInterrupt _ | ECrash _ => false | _ => true end.
+
+  Lemma running_new : forall (s s' : st V) e, step0 C s e = Some s' ->
+    forall w t, running s' w t -> running s w t \/ e = EStart w t.
+  Proof.
+    intros s s' e H. destruct e; break_step H; norm; simpl in *; intros wq tq Hq.
+    all: unfold running in *; simpl in *.
+    all: try (casew2 wq w).
+    all: auto.
+    all: try solve [pcs; discriminate].
+    all: try solve [destruct b; simpl in *; try solve [pcs; discriminate]; rewrite Heqp in *; auto].
+    all: simpl in Hq; try rewrite Heqp in *.
+    all: try solve [pcs; discriminate].
+    - pcs; try discriminate. inversion H; subst. auto.
+    - pcs; try discriminate. inversion H; subst. auto.
+    - unfold after_failure in Hq. destruct (c_keep_going C); pcs; discriminate.
+    - unfold after_failure in Hq. destruct (c_keep_going C); pcs; discriminate.
+  Qed.
+
+  Lemma running_kept : forall (s s' : st V) e, step0 C s e = Some s' -> quiet e = true ->
+    forall w t, running s w t -> running s' w t \/ exists v, e = EDump w t v.
+  Proof.
+    intros s s' e H Q. destruct e; try discriminate Q; break_step H; norm; simpl in *; intros wq tq Hq.
+    all: unfold running in *; simpl in *.
+    all: try (casew2 wq w).
+    all: auto.
+    all: try solve [rewrite Heqp in Hq; pcs; discriminate].
+    all: try solve [destruct b; simpl in *; auto; rewrite Heqp in Hq; pcs; discriminate].
+    - rewrite Heqp in Hq. pcs; try discriminate. inversion H; subst. simpl. eauto.
+    - rewrite Heqp in Hq. pcs; try discriminate. inversion H; subst. right. eauto.
+  Qed.
+
+  (* [r0]: the results present at the start *)
+  Definition Once (r0 : tid -> option V) (s : st V) : Prop :=
+    (forall t v, r0 t = Some v -> results s t = Some v) /\
+    forall t,
+      (execs s t = 0 /\ (forall w, ~ running s w t) /\ (results s t <> None -> r0 t <> None)) \/
+      (execs s t = 1 /\ r0 t = None /\ (results s t <> None \/ exists w, running s w t)).
+
+  Lemma execs_step : forall (s s' : st V) e, step0 C s e = Some s' ->
+    forall t, execs s' t = execs s t \/ (exists w, e = EStart w t /\ execs s' t = S (execs s t)).
+  Proof.
+    intros s s' e H. destruct e; break_step H; norm; simpl in *; intros tq; auto.
+    all: try solve [destruct b; auto].
+    unfold upd. destruct (Pos.eqb tq t0) eqn:E; auto. apply Pos.eqb_eq in E; subst. right. eauto.
+  Qed.
+
+
+  Definition starts (e : ev V) (t : tid) : bool :=
+    match e with EStart _ t' => Pos.eqb t' t | _ => false end.
+
+  Lemma execs_step_eq : forall (s s' : st V) e, step0 C s e = Some s' ->
+    forall t, execs s' t = if starts e t then S (execs s t) else execs s t.
+  Proof.
+    intros s s' e H. destruct e; break_step H; norm; simpl in *; intros tq; auto.
+    all: try solve [destruct b; auto].
+    unfold upd. rewrite Pos.eqb_sym. destruct (Pos.eqb t0 tq) eqn:E; auto. apply Pos.eqb_eq in E; subst. auto.
+  Qed.
+
+  Lemma start_runs : forall (s s' : st V) w t, step0 C s (EStart w t) = Some s' ->
+    pcw s w = PCleared t /\ running s' w t.
+  Proof.
+    intros s s' w t H. break_step H; norm. split; auto. left. simpl. now rewrite updw_same.
+  Qed.
+
+  Lemma results_new : forall (s s' : st V) e, step0 C s e = Some s' ->
+    forall t, results s' t <> None -> results s t <> None \/ exists w v, e = EDump w t v /\ running s w t.
+  Proof.
+    intros s s' e H t Hr. destruct (results_step _ _ _ H) as [E | [w [t' [v0 [E [v' [Hp E']]]]]]].
+    - rewrite E in Hr. auto.
+    - rewrite E' in Hr. unfold upd in Hr. destruct (Pos.eqb t t') eqn:Et; auto.
+      apply Pos.eqb_eq in Et. subst. right. exists w, v0. split; auto. right. eauto.
+  Qed.
+
+  Lemma dump_stores : forall (s s' : st V) w t v, step0 C s (EDump w t v) = Some s' -> results s' t <> None.
+  Proof. intros s s' w t v H. break_step H; norm. simpl. rewrite upd_same. discriminate. Qed.
+
+  Lemma Once_step0 : forall r0 (s s' : st V) e, Inv s -> Once r0 s -> quiet e = true ->
+    step0 C s e = Some s' -> Once r0 s'.
+  Proof.
+    intros r0 s s' e I [Hm Ho] Q H. split.
+    - intros t v Hr. eapply results_mono_step0; eauto.
+    - intros t. rewrite (execs_step_eq _ _ _ H t). destruct (starts e t) eqn:Es.
+      + destruct e; try discriminate Es. simpl in Es. apply Pos.eqb_eq in Es. subst t0.
+        destruct (start_runs _ _ _ _ H) as [Hp Hr].
+        assert (Hn : results s t = None) by (eapply I_none; eauto).
+        destruct (Ho t) as [[He [Hnr Hi]] | [He [Hr0 [Hs | [w' Hw']]]]].
+        * right. rewrite He. split; auto. split; eauto.
+          destruct (r0 t) eqn:Er; auto. rewrite (Hm _ _ Er) in Hn. discriminate.
+        * congruence.
+        * exfalso. assert (L : locks s t = LHeld w) by (apply (I_lock _ I); rewrite Hp; reflexivity).
+          assert (L' : locks s t = LHeld w') by (apply (I_lock _ I); destruct Hw' as [X | [v X]]; rewrite X; reflexivity).
+          assert (w = w') by congruence. subst. destruct Hw' as [X | [v X]]; rewrite Hp in X; discriminate.
+      + destruct (Ho t) as [[He [Hnr Hi]] | [He [Hr0 Hs]]].
+        * left. split; auto. split.
+          -- intros w Hw. destruct (running_new _ _ _ H _ _ Hw) as [X | X]; [eapply Hnr; eauto |].
+             subst e. simpl in Es. rewrite Pos.eqb_refl in Es. discriminate.
+          -- intros Hr. destruct (results_new _ _ _ H _ Hr) as [X | [w [v [_ X]]]]; auto. exfalso. eapply Hnr; eauto.
+        * right. split; auto. split; auto. destruct Hs as [Hs | [w Hw]].
+          -- left. destruct (results s t) eqn:Er; [|congruence]. rewrite (results_mono_step0 _ _ _ I H _ _ Er). discriminate.
+          -- destruct (running_kept _ _ _ H Q _ _ Hw) as [X | [v X]]; eauto.
+             subst e. left. eapply dump_stores; eauto.
+  Qed.
+
+  Lemma Once_tick : forall r0 (s : st V), Once r0 s -> Once r0 (tick s).
+  Proof. intros r0 s H. exact H. Qed.
+
+  Lemma Once_init : forall r0, Once r0 (init r0).
+  Proof.
+    intros r0. split; simpl; auto. intros t. left. split; auto. split; auto.
+    intros w [H | [v H]]; discriminate.
+  Qed.
+
+  (* C02 (c): absent failures, stops and crashes every function is called at most once, exactly once
+     for every task that ends up stored without having been stored at the start - however many
+     workers, whatever the interleaving, however often execute is repeated *)
+  Theorem once_run : forall r0 tr (s0 s : st V), Inv s0 -> Once r0 s0 -> forallb quiet tr = true ->
+    run C s0 tr = Some s -> Once r0 s.
+  Proof.
+    intros r0. induction tr as [|e tr IH]; simpl; intros s0 s I O Q H.
+    - inversion H; subst; auto.
+    - apply andb_true_iff in Q. destruct Q as [Qe Q]. destruct (step C s0 e) eqn:E; [|discriminate].
+      destruct (step_inv_some _ _ _ E) as [sx [E1 E2]]. subst.
+      eapply IH; [eapply Inv_step; eauto | | eauto | eauto].
+      apply Once_tick. eapply Once_step0; eauto.
+  Qed.
+
+  Theorem exactly_once : forall r0 tr (s : st V), Sound r0 -> forallb quiet tr = true ->
+    run C (init r0) tr = Some s ->
+    forall t, execs s t <= 1 /\
+              (r0 t <> None -> execs s t = 0) /\
+              (r0 t = None -> results s t <> None -> execs s t = 1).
+  Proof.
+    intros r0 tr s Hs Q H t.
+    destruct (once_run r0 tr _ _ (Inv_init _ Hs) (Once_init r0) Q H) as [Hm Ho].
+    destruct (Ho t) as [[He [_ Hi]] | [He [Hr0 _]]]; rewrite He.
+    - split; [lia|]. split; auto. intros Hn Hr. exfalso. apply (Hi Hr). exact Hn.
+    - split; [lia|]. split; auto. intros Hn. congruence.
+  Qed.
+
+  (* ------------------------------------------------------------------ failing tasks (C11) *)
+  Lemma sem_stable : forall (r r' : tid -> option V) t,
+    (forall d v, r d = Some v -> r' d = Some v) -> deps_stored r t -> c_sem C t r' = c_sem C t r.
+  Proof.
+    intros r r' t Hm Hd. apply sem_frame. intros d Hin. specialize (Hd d Hin).
+    destruct (r d) eqn:E; [|congruence]. now rewrite (Hm _ _ E).
+  Qed.
+
+  (* a task that raises, or that depends - however indirectly - on one that does *)
+  Inductive doomed (r : tid -> option V) : tid -> Prop :=
+  | doomed_raises : forall t, deps_stored r t -> c_sem C t r = Raise -> doomed r t
+  | doomed_dep : forall t d, In d (c_deps C t) -> doomed r d -> doomed r t.
+
+  Lemma doomed_unstored : forall r t, Sound r -> doomed r t -> r t = None.
+  Proof.
+    intros r t Hs Hd. induction Hd as [t Hdep Hr | t d Hin Hd IH].
+    - destruct (r t) eqn:E; auto. destruct (Hs _ _ E) as [_ X]. congruence.
+    - destruct (r t) eqn:E; auto. destruct (Hs _ _ E) as [X _]. exfalso. apply (X d Hin). exact IH.
+  Qed.
+
+  Lemma doomed_mono : forall (r r' : tid -> option V) t,
+    (forall d v, r d = Some v -> r' d = Some v) -> doomed r t -> doomed r' t.
+  Proof.
+    intros r r' t Hm Hd. induction Hd as [t Hdep Hr | t d Hin Hd IH].
+    - apply doomed_raises; [eapply deps_stored_mono; eauto | rewrite (sem_stable r r'); auto].
+    - eapply doomed_dep; eauto.
+  Qed.
+
+  (* C11 (a)+(b): nothing is ever stored for a task that raises or depends on one that does, and
+     the function of a dependent is never even started *)
+  Theorem doomed_forever : forall tr (s s' : st V) t, Inv s -> doomed (results s) t ->
+    run C s tr = Some s' -> results s' t = None /\ doomed (results s') t.
+  Proof.
+    intros tr s s' t I Hd H.
+    assert (I' : Inv s') by (eapply Inv_run; eauto).
+    assert (Hd' : doomed (results s') t).
+    { eapply doomed_mono; [|eauto]. intros d v. eapply results_mono_run; eauto. }
+    split; auto. apply doomed_unstored; auto. apply (I_sound _ I').
+  Qed.
+
+  Theorem doomed_dependent_never_starts : forall (s : st V) w t d, Inv s ->
+    In d (c_deps C t) -> doomed (results s) d -> step C s (EStart w t) = None.
+  Proof.
+    intros s w t d I Hin Hd. destruct (step C s (EStart w t)) eqn:E; auto. exfalso.
+    apply (start_needs_deps _ _ _ _ E d Hin). apply doomed_unstored; auto. apply (I_sound _ I).
+  Qed.
+
+  (* the worker that sees a task raise: the task is doomed from then on *)
+  Theorem raise_dooms : forall (s s' : st V) w t, step C s (ERaise w t) = Some s' -> doomed (results s') t.
+  Proof.
+    intros s s' w t H. destruct (step_inv_some _ _ _ H) as [s0 [H0 E]]. subst.
+    break_step H0; norm; simpl; apply doomed_raises; auto;
+      match goal with Hf : forallb (stored _) _ = true |- _ => exact (proj1 (forallb_stored _ _) Hf) end.
+  Qed.
+
+  (* C11 (e): what happens to the lock of the task that raised *)
+  Theorem raised_lock : forall (s s' : st V) w t e, pcw s w = PRaised t -> step C s e = Some s' ->
+    pcw s' w = PRaised t \/ pcw s' w = PDead \/
+    (e = EUnlock w t /\ c_keep_failed C = false /\ locks s' t = LFree) \/
+    (e = EFailMark w t /\ c_keep_failed C = true /\ locks s' t = LFailed).
+  Proof.
+    intros s s' w t e Hp H. destruct (step_inv_some _ _ _ H) as [s0 [H0 E]]. subst.
+    destruct e; break_step H0; norm; simpl.
+    all: try (casew2 w w0); simpl; auto.
+    all: try congruence.
+    all: try solve [destruct b; simpl; auto].
+    all: rewrite Hp in Heqp; inversion Heqp; subst.
+    - right. right. left. rewrite upd_same. auto.
+    - right. right. right. rewrite upd_same. auto.
+  Qed.
+
+  (* a lock marked failed stays failed, and cannot be acquired, until failed locks are cleaned up *)
+  Theorem failed_sticky : forall (s s' : st V) e t, Inv s -> locks s t = LFailed -> step C s e = Some s' ->
+    locks s' t = LFailed \/ e = EReleaseFailed \/ e = ERemoveLocks.
+  Proof.
+    intros s s' e t I Hl H. destruct (step_inv_some _ _ _ H) as [s0 [H0 E]]. subst.
+    destruct e; break_step H0; norm; simpl; auto.
+    all: try solve [destruct b; auto].
+    all: try solve [left; unfold upd; destruct (Pos.eqb t t0) eqn:Et; auto; apply Pos.eqb_eq in Et; subst; congruence].
+    all: fwd I; left; unfold upd; destruct (Pos.eqb t t1) eqn:Et; auto; apply Pos.eqb_eq in Et; subst; congruence.
+  Qed.
+
+  Theorem failed_not_acquired : forall (s : st V) w t, locks s t = LFailed -> step C s (ELock w t true) = None.
+  Proof. intros s w t Hl. unfold step, step0. destruct (pcw s w); auto. rewrite Hl. auto. Qed.
+
+  (* C11 (d): the exit status of a worker that was not asked to stop is non-zero iff it saw a failure *)
+  Theorem exit_code_reports_failure : forall (s s' : st V) w code, step C s (EExit w code) = Some s' ->
+    w_intr (ws s w) = false -> (code = 0 <-> w_failed (ws s w) = false).
+  Proof.
+    intros s s' w code H Hi. destruct (step_inv_some _ _ _ H) as [s0 [H0 E]]. subst.
+    unfold step0 in H0. destruct (pcw s w); try discriminate.
+    - destruct (may_leave C (ws s w) && Bool.eqb (Nat.eqb code 0) (negb (w_failed (ws s w)))) eqn:Eb; [|discriminate].
+      apply andb_true_iff in Eb. destruct Eb as [_ Eb]. apply eqb_prop in Eb.
+      destruct (w_failed (ws s w)); simpl in Eb; split; intros X; try discriminate; auto.
+      + subst. discriminate.
+      + apply Nat.eqb_eq. auto.
+    - rewrite Hi in H0. simpl in H0.
+      destruct (negb (Nat.eqb code 0) && w_failed (ws s w)) eqn:Eb; [|discriminate].
+      apply andb_true_iff in Eb. destruct Eb as [Eb1 Eb2]. apply negb_true_iff in Eb1. apply Nat.eqb_neq in Eb1.
+      rewrite Eb2. split; intros; [contradiction | discriminate].
+  Qed.
+
+  Definition raises_in (w : wid) (e : ev V) : bool :=
+    match e with ERaise w' _ => Nat.eqb w' w | _ => false end.
+
+  Lemma failed_step : forall (s s' : st V) e w, step0 C s e = Some s' ->
+    w_failed (ws s' w) = w_failed (ws s w) || raises_in w e.
+  Proof.
+    intros s s' e w H. destruct e; break_step H; norm; simpl.
+    all: try (casew2 w w0); simpl; rewrite ?orb_false_r; auto.
+    all: try solve [destruct b; simpl; auto].
+    all: try solve [rewrite Nat.eqb_refl; rewrite orb_true_r; reflexivity].
+    all: try solve [apply Nat.eqb_neq in E; rewrite Nat.eqb_sym in E; rewrite E; rewrite orb_false_r; auto].
+  Qed.
+
+  (* ... and "saw a failure" means exactly: some task function raised in this worker *)
+  Theorem failed_iff_raised : forall tr (s s' : st V) w, run C s tr = Some s' ->
+    w_failed (ws s' w) = w_failed (ws s w) || existsb (raises_in w) tr.
+  Proof.
+    induction tr as [|e tr IH]; simpl; intros s s' w H.
+    - inversion H; subst. now rewrite orb_false_r.
+    - destruct (step C s e) eqn:E; [|discriminate]. destruct (step_inv_some _ _ _ E) as [s1 [E1 E2]]. subst.
+      rewrite (IH _ _ w H). simpl. rewrite (failed_step _ _ _ w E1). now rewrite orb_assoc.
+  Qed.
+
+  (* ------------------------------------------------------------------ stopping and crashing (C12, C13) *)
+  (* a stop request can arrive in every state of a worker in which it is choosing, waiting, holding
+     a lock, inside a task function or between the function and the dump *)
+  Theorem interrupt_enabled : forall (s : st V) w,
+    (pcw s w = PIdle \/ exists t, pcw s w = PLocked t \/ pcw s w = PCleared t \/ pcw s w = PSkip t \/
+                                  pcw s w = PRunning t \/ (exists v, pcw s w = PRan t v) \/ pcw s w = PStored t) ->
+    exists s', step C s (EInterrupt w) = Some s' /\ w_intr (ws s' w) = true /\ results s' = results s /\ locks s' = locks s.
+  Proof.
+    intros s w H. unfold step, step0.
+    destruct H as [H | [t [H | [H | [H | [H | [[v H] | H]]]]]]]; rewrite H; simpl;
+      eexists; (split; [reflexivity|]); simpl; rewrite updw_same; auto.
+  Qed.
+
+  Definition actor (e : ev V) : option wid :=
+    match e with
+    | ECanLoad w _ _ | ELoad w _ _ | ELock w _ _ | EStart w _ | ERet w _ _ | ERaise w _ | EDump w _ _
+    | EUnlock w _ | EFailMark w _ | EInterrupt w | ECrash w | EExit w _ => Some w
+    | ERemoveLocks | EReleaseFailed => None
+    end.
+
+  (* events of other workers (and of the operator) do not touch a worker's own state *)
+  Lemma others_untouched : forall (s s' : st V) e w, step0 C s e = Some s' -> actor e <> Some w -> ws s' w = ws s w.
+  Proof.
+    intros s s' e w H Ha. destruct e; break_step H; norm; simpl in *; auto.
+    all: try solve [casew2 w w0; auto; congruence].
+    all: try solve [destruct b; casew2 w w0; auto; congruence].
+  Qed.
+
+  Lemma intr_kept : forall (s s' : st V) e w, step0 C s e = Some s' -> w_intr (ws s w) = true -> w_intr (ws s' w) = true.
+  Proof.
+    intros s s' e w H Hi. destruct e; break_step H; norm; simpl in *; auto.
+    all: try solve [casew2 w w0; simpl; auto].
+    all: try solve [destruct b; casew2 w w0; simpl; auto].
+  Qed.
+
+  (* once asked to stop, a worker never starts a function, stores a result or takes a lock again;
+     all it can still do to shared state is release the lock it holds *)
+  Theorem interrupted_is_harmless : forall (s s' : st V) e w, Inv s -> w_intr (ws s w) = true ->
+    step C s e = Some s' -> actor e = Some w ->
+    results s' = results s /\
+    (locks s' = locks s \/ exists t, e = EUnlock w t /\ pcw s w = PUnwind t /\ pcw s' w = PExiting).
+  Proof.
+    intros s s' e w I Hi H Ha. destruct (step_inv_some _ _ _ H) as [s0 [H0 E]]. subst.
+    destruct (I_intr _ I w Hi) as [[t Hp] | [Hp | [[c Hp] | Hp]]];
+      destruct e; simpl in Ha; inversion Ha; subst; unfold step0 in H0; rewrite Hp in H0; simpl in H0; try discriminate.
+    all: repeat break_match_hyp H0; inversion H0; subst; simpl; auto.
+    split; auto. right. exists t. norm. rewrite updw_same. simpl. auto.
+  Qed.
+
+  Theorem interrupted_stays : forall tr (s s' : st V) w, w_intr (ws s w) = true -> run C s tr = Some s' ->
+    w_intr (ws s' w) = true.
+  Proof.
+    induction tr as [|e tr IH]; simpl; intros s s' w Hi H.
+    - inversion H; subst; auto.
+    - destruct (step C s e) eqn:E; [|discriminate]. destruct (step_inv_some _ _ _ E) as [s1 [E1 E2]]. subst.
+      eapply IH; [|eauto]. simpl. eapply intr_kept; eauto.
+  Qed.
+
+  (* a crash changes nothing but the crashed worker: results, locks and every other worker are as before *)
+  Theorem crash_effect : forall (s s' : st V) w, step C s (ECrash w) = Some s' ->
+    results s' = results s /\ locks s' = locks s /\ pcw s' w = PDead /\ (forall w', w' <> w -> ws s' w' = ws s w').
+  Proof.
+    intros s s' w H. destruct (step_inv_some _ _ _ H) as [s0 [H0 E]]. subst.
+    break_step H0; simpl. rewrite updw_same. repeat split; auto. intros w' Hn. now rewrite updw_other.
+  Qed.
+
+  (* a dead (or finished) worker never acts again *)
+  Theorem dead_is_silent : forall (s s' : st V) e w, live (pcw s w) = false -> step C s e = Some s' -> actor e <> Some w.
+  Proof.
+    intros s s' e w Hl H Ha. destruct (step_inv_some _ _ _ H) as [s0 [H0 E]]. subst.
+    destruct e; simpl in Ha; inversion Ha; subst; unfold step0 in H0.
+    all: destruct (pcw s w); simpl in *; try discriminate.
+  Qed.
+
+  Theorem dead_stays : forall (s s' : st V) e w, live (pcw s w) = false -> step C s e = Some s' -> ws s' w = ws s w.
+  Proof.
+    intros s s' e w Hl H. assert (Ha := dead_is_silent _ _ _ _ Hl H).
+    destruct (step_inv_some _ _ _ H) as [s0 [H0 E]]. subst. simpl. eapply others_untouched; eauto.
+  Qed.
+
+  (* removing stale locks: possible as soon as every lock holder is dead, frees everything, touches no result *)
+  Theorem remove_locks_effect : forall (s : st V), Inv s ->
+    (forall t w, locks s t = LHeld w -> live (pcw s w) = false) ->
+    exists s', step C s ERemoveLocks = Some s' /\ results s' = results s /\ (forall t, locks s' t = LFree) /\ ws s' = ws s.
+  Proof.
+    intros s I Hd. unfold step, step0.
+    assert (G : forallb (fun t => match locks s t with LHeld w => negb (live (pcw s w)) | _ => true end) (c_tasks C) = true).
+    { apply forallb_forall. intros t _. destruct (locks s t) eqn:El; auto. rewrite (Hd _ _ El). reflexivity. }
+    rewrite G. eexists. split; [reflexivity|]. simpl. auto.
+  Qed.
+
 End Facts.
